@@ -59,7 +59,12 @@ def np_isfinite(ctx, x):
     return lib.m_isfinite(ctx, x)
 
 
-def np_isin(ctx, pix, lst):
+def np_isin(ctx, pix, lst, assume_unique=False, invert=False, **kw):
+    if assume_unique:
+        # numpy: "If True, the input arrays are both assumed to be unique" -- the queried positions are arbitrary, several may share a pixel
+        ctx.oblige("pre", "np_isin.assume_unique_needs_unique_inputs", False)
+    if invert or kw:
+        raise Undecided("np.isin with options %s" % sorted(list(kw) + (['invert'] if invert else [])))
     if isinstance(pix, SArr) and isinstance(lst, SSet):
         ctx.session.trust("np.isin(a, list(S))[k] = (a[k] in S)")
         b = pix.snapshot()
